@@ -82,6 +82,24 @@ def tailify(stmts):
                     st.orelse = st.orelse + tailify(rest)
                     out.append(st)
                     return out
+                if len(rest) <= 3 and _terminates(rest) and not any(isinstance(n, (ast.For, ast.While, ast.Try)) for r_ in rest for n in ast.walk(r_)):
+                    # a return somewhere inside the branches, and a short terminating rest (`raise ...`): the rest follows every
+                    # branch end that falls through
+                    trest = tailify(rest)
+
+                    def push(block):
+                        if _terminates(block):
+                            return block
+                        if block and isinstance(block[-1], ast.If):
+                            last = copy.copy(block[-1])
+                            last.body = push(last.body)
+                            last.orelse = push(last.orelse)
+                            return block[:-1] + [last]
+                        return block + [clone(r_) for r_ in trest]
+                    st.body = push(st.body)
+                    st.orelse = push(st.orelse)
+                    out.append(st)
+                    return out
         elif isinstance(st, ast.With):
             st = copy.copy(st)
             st.body = tailify(st.body)
@@ -1184,6 +1202,34 @@ def ifexp_to_if(fnode):
                 out.append(st)
         return out
     fn.body = conv(fn.body)
+    ast.fix_missing_locations(fn)
+    return fn
+
+
+def split_group_unpacking(fnode):
+    """`a, b, c = m.group(x, y, z)` (as many targets as arguments, m a plain name) is `a = m.group(x); b = m.group(y); c = m.group(z)`:
+    Match.group with several arguments returns the tuple of the single groups."""
+    fn = clone(fnode)
+
+    def rewrite(body):
+        out = []
+        for st in body:
+            for fld in ('body', 'orelse', 'finalbody'):
+                if isinstance(getattr(st, fld, None), list) and not isinstance(st, ast.ClassDef):
+                    setattr(st, fld, rewrite(getattr(st, fld)))
+            for h in getattr(st, 'handlers', []) or []:
+                h.body = rewrite(h.body)
+            if isinstance(st, ast.Assign) and len(st.targets) == 1 and isinstance(st.targets[0], (ast.Tuple, ast.List)) and isinstance(st.value, ast.Call) \
+                    and isinstance(st.value.func, ast.Attribute) and st.value.func.attr == 'group' and isinstance(st.value.func.value, ast.Name) \
+                    and not st.value.keywords and len(st.value.args) == len(st.targets[0].elts) >= 2 \
+                    and not any(isinstance(a, ast.Starred) for a in st.value.args) and not any(isinstance(t, ast.Starred) for t in st.targets[0].elts):
+                for t, a in zip(st.targets[0].elts, st.value.args):
+                    call = ast.Call(func=clone(st.value.func), args=[a], keywords=[])
+                    out.append(ast.copy_location(ast.Assign(targets=[t], value=ast.copy_location(call, st.value)), st))
+                continue
+            out.append(st)
+        return out
+    fn.body = rewrite(fn.body)
     ast.fix_missing_locations(fn)
     return fn
 
